@@ -11,6 +11,7 @@ func init() {
 	vHarnesses["H_C04_catch"] = H_C04_catch
 	vHarnesses["H_C09_history"] = H_C09_history
 	vHarnesses["H_C11_allsol"] = H_C11_allsol
+	vHarnesses["H_C17_dcg"] = H_C17_dcg
 	vHarnesses["H_C16_rel"] = H_C16_rel
 	vHarnesses["H_C18_ops"] = H_C18_ops
 	vHarnesses["H_C08_order"] = H_C08_order
@@ -118,4 +119,10 @@ func H_C18_ops(inst int) {
 func H_C16_rel(inst int) {
 	i := newFull()
 	engine.VH_C16(&i.VM, inst)
+}
+
+// H_C17_dcg: grammar `inst`: expand_term + assertz of every rule, then phrase/2,3 vs the reference translation.
+func H_C17_dcg(inst int) {
+	i := newFull()
+	engine.VH_C17(&i.VM, inst)
 }
